@@ -79,7 +79,8 @@ CONSTRUCTS = [
 	'array:counted:alias', 'array:counted:enum', 'array:counted:struct', 'array:counted:abstract', 'array:bytes', 'array:byte-sized:aligned',
 	'array:fill:aligned', 'array:fill:plain', 'struct:size-prefixed', 'member:sizeof', 'member:sizeof:abstract', 'member:sizeref',
 	'member:reserved', 'member:const', 'cond:sizeref-struct', 'cond:sentinel-bytes', 'cond:union', 'factory', 'factory:no-size',
-	'sort_key:alias', 'sort_key:comparer', 'count:named-_count', 'count:other-name', 'member:int:signed', 'member:struct', 'pad_last:not']
+	'sort_key:alias', 'sort_key:comparer', 'count:named-_count', 'count:other-name', 'member:int:signed', 'member:struct', 'pad_last:not',
+	'const:named-like-its-member']
 
 
 class Schema:
@@ -541,12 +542,20 @@ class Builder:
 				break
 		for member in (type_member, version_member):
 			self.used_members.add(member)
+		# the constant is named <OWNER>_<MEMBER> (shipped schemas) or exactly like the member it initialises (the spelling of the DSL
+		# documentation, `@initializes(transport_mode, TRANSPORT_MODE)`)
+		bare = self.chance(1, 4)
+
+		def const_of(member):
+			return member.upper() if bare else f'{family.prefix}_{member.upper()}'
+		if bare:
+			self.note('const:named-like-its-member')
 		if shape == 'type':
-			family.discriminators = [(type_member, f'{family.prefix}_{type_member.upper()}', 'enum')]
+			family.discriminators = [(type_member, const_of(type_member), 'enum')]
 			family.plain_version = version_member if self.chance(2, 3) else None
 		else:
-			family.discriminators = [(type_member, f'{family.prefix}_{type_member.upper()}', 'enum'),
-				(version_member, f'{family.prefix}_{version_member.upper()}', 'int')]
+			family.discriminators = [(type_member, const_of(type_member), 'enum'),
+				(version_member, const_of(version_member), 'int')]
 			if shape == 'version+type':
 				family.discriminators.reverse()
 		for _, const, _ in family.discriminators:
